@@ -321,7 +321,7 @@ impl StringGenerator {
             let len = if self.options.compress && !self.options.preserve_line_length {
                 let mut last = area.get_width() - 1;
                 let last_attr = layer.get_char((last, y)).attribute;
-                if last_attr.background_color == 0 {
+                if last_attr.background_color == 0 && !last_attr.is_blinking() {
                     while last > area.left() {
                         let c = layer.get_char((last, y));
 
